@@ -1,5 +1,6 @@
 """C19 - default categories and modifiers (clauses: ROLE/FIELD/SELECT/TABLE on the two default sets, DOM, SIBLING)"""
 import re
+from engines import for_loops
 from engines import bool_polarity
 from prov import Prov, params_of, field_names
 from props.shared import membership_sites, term_fields
@@ -44,7 +45,13 @@ def analyse(ck, prog, pv, pvn, name, fieldname):
         fl = term_fields(val)
         ok = "children" in fl and not (fl & {"all_parents", "parents"})
         ck.ob("FIELD", name + "/source-field", ok, "%s is built from %s (expected the direct `children`)" % (fieldname, sorted(fl & {"children", "all_parents", "parents"})), where=b.where(s.line))
-        ck.ob("ROLE", name + "/filtered", any(a[0] == "call" and a[1].endswith("::filter") for a in val) or not filters and False, "%s %s a filter on the root's children" % (name, "applies" if filters else "does NOT apply"), where=b.where(s.line))
+        has_filter = any(a[0] == "call" and a[1].endswith("::filter") for a in val)
+        # other idioms (a private helper, an explicit loop with `if child != PHENOTYPE_ID { insert }`) are not classified by this rule
+        other_idiom = bool(for_loops(b)) or any(a[0] == "call" and a[3] == b.id and a[1] in prog.bodies and prog.bodies[a[1]].kind in ("Fn", "AssocFn") and prog.bodies[a[1]].vis != "public" and prog.bodies[a[1]].file == b.file and not a[1].endswith("::hpo") for a in pvn.of_operand(b, s.rv["op"]) if s.rv["k"] == "use")
+        if not has_filter and other_idiom:
+            ck.undecided("ROLE", name + "/filtered", "%s does not build self.%s with an iterator filter in its own body (helper / loop): the exclusion of the phenotype root is not classified" % (name, fieldname), where=b.where(s.line))
+        else:
+            ck.ob("ROLE", name + "/filtered", has_filter, "%s %s a filter on the root's children" % (name, "applies" if has_filter else "does NOT apply"), where=b.where(s.line))
         # DOM: dominated by the found edge of every lookup
         for bi, t in b.calls():
             if t.callee.res != ONT + "hpo":
@@ -88,7 +95,9 @@ def analyse(ck, prog, pv, pvn, name, fieldname):
             ck.ob("SELECT", name + "/filter-constant", cds == {"PHENOTYPE_ID"} and has_param, "the filter compares each child with %s (expected PHENOTYPE_ID)" % (sorted(cds) or "no named constant"), where=cb.where(ct.line))
             res["polarity"] = keeps_ne
     if name.endswith("categories"):
-        if not chains:
+        if not chains and (for_loops(b) or not filters):
+            ck.undecided("ROLE", name + "/chain", "the categories are not built with Iterator::chain in this body (loop / helper): the second source is not classified", where=b.where())
+        elif not chains:
             ck.ob("ROLE", name + "/chain", False, "categories do not include the children of PHENOTYPE_ID (no second source)", where=b.where())
         for cbi, ctm in chains:
             second = pv.of_operand(b, ctm.args[1])
